@@ -547,6 +547,18 @@ func genC14(r *Rand, p *Plan, tier string) {
 		idx++
 	}
 	addControl(20 + r.Intn(30))
+	if r.Chance(15) && len(p.Scen.Clients) >= 2 {
+		// the keychain service answers slowly (here: not before the end of the run) for the
+		// scope of one client; clients of other scopes must be admitted all the same
+		last := p.Scen.Clients[len(p.Scen.Clients)-1]
+		lastKey := RefAdmission(d, &last).Key
+		for i := range p.Scen.Clients[:len(p.Scen.Clients)-1] {
+			if k := RefAdmission(d, &p.Scen.Clients[i]).Key; k != "" && k != lastKey {
+				p.Park = append(p.Park, "scope-keychain:"+k)
+				break
+			}
+		}
+	}
 	if r.Chance(25) {
 		// many clients can exhaust file descriptors: Accept fails with a temporary error
 		p.Scen.Ctl = append(p.Scen.Ctl, Ctl{Kind: "accept-fault", Arg: PickOf(r, "temp", "temp", "plain"), NotBefore: r.Intn(25)})
